@@ -1,0 +1,18 @@
+//go:build verif
+
+// Machine-checked contracts for this package (comment-only; compiled only with -tags verif,
+// and even then contributes no code).  Read by /verif/govc; see /verif/DESIGN.md.
+
+package config
+
+//@ func (*Config).ProgramIPIPClusterRoutes
+//@   property C28
+//@   requires config != nil
+//@   ensures res == felixIPIP(config.ProgramClusterRoutes)
+//@   assigns nothing
+
+//@ func (*Config).ProgramNoEncapClusterRoutes
+//@   property C28
+//@   requires config != nil
+//@   ensures res == felixNoEncap(config.ProgramClusterRoutes)
+//@   assigns nothing
